@@ -1,6 +1,6 @@
 """C13 Hashing neither depends on nor disturbs the caller's FP environment."""
 import astq
-from rules import driver
+from rules import driver, jit
 
 LEVEL = 'other'
 TECHNIQUE = 'dominator / post-dominator analysis on the driver CFGs (CSR and fenv builds), known-bits abstract interpretation of the control words, whole-library scan for FP-control writers'
@@ -21,3 +21,4 @@ def run(ctx, R):
     driver.rule_reset(ctx, R, F, 'K0')
     driver.rule_resetword(ctx, R, F)
     driver.rule_noleak(ctx, R)
+    jit.rule_cfr_x86(ctx, R, F)
